@@ -7,6 +7,7 @@ import (
 	"io"
 	"net"
 	"net/http"
+	"reflect"
 	"strconv"
 	"strings"
 	"sync"
@@ -41,6 +42,7 @@ type vCache struct {
 	mu      sync.Mutex // bursts of concurrent queries (op C) share the Cacher
 	m       map[interface{}]interface{}
 	byOp    map[int]interface{} // operation index -> key passed to Add
+	addLog  []interface{}       // keys passed to Add during the current operation, in order
 	meta    map[interface{}]vMeta
 	curOp   int
 	curMeta vMeta
@@ -57,6 +59,7 @@ func (c *vCache) Add(k, v interface{}) {
 	resolver.VerifCacheTruncEntry(v)
 	c.m[k] = v
 	c.byOp[c.curOp] = k
+	c.addLog = append(c.addLog, k)
 	c.meta[k] = c.curMeta
 }
 
@@ -306,6 +309,7 @@ func execHistory(f []string, srv *udpSrv) (string, bool) {
 		g := strings.Split(tok, ",")
 		cache.curOp = idx
 		cache.lastGet = nil
+		cache.addLog = nil
 		switch {
 		case g[0] == "A" && len(g) == 2:
 			d, err := strconv.ParseInt(g[1], 10, 64)
@@ -415,6 +419,16 @@ func execHistory(f []string, srv *udpSrv) (string, bool) {
 				}
 				toks = append(toks, fmt.Sprintf("fc=%s,err=%s,tr=%s,n=%s,up=%s,al=%s",
 					b01(results[i].i.FromCache), b01(results[i].err != nil), tr, hx(bufs[i][:n]), up, al))
+			}
+			// eviction by operation index refers to what the SECOND client (profile B) stored, whichever
+			// of the two stored last
+			delete(cache.byOp, idx)
+			for _, k := range cache.addLog {
+				v := reflect.ValueOf(k)
+				if v.Kind() == reflect.Struct && v.NumField() > 0 && v.Field(0).Kind() == reflect.String &&
+					v.Field(0).String() == cacheProfilePrefix+pb {
+					cache.byOp[idx] = k
+				}
 			}
 			out = append(out, "cc,"+strings.Join(toks, "+"))
 		case g[0] == "C" && len(g) >= 5:
